@@ -235,6 +235,7 @@ type VC struct {
 	prelude     []*preludeEntry
 	sentinels   []Term
 	flagsUsed   []string
+	needBytes   bool
 	frameOn     bool
 	topEntry    Term
 	modRefs     map[string][]Term
@@ -779,4 +780,26 @@ func (vc *VC) loopWriteCheck(st *State, comp string, ref string, guard Term) {
 	}
 	st.mark(key)
 	vc.oblige(st, vc.top, "frame.loopwrite", strings.ReplaceAll(comp, " ", ""), goal, "a write inside a loop goes to a fresh object or a modifies target", 0)
+}
+
+// ghostComp registers (on first use) the ghost heap component declared by "//@ ghost NAME SORT".
+func (vc *VC) ghostComp(name string) (string, bool) {
+	st, ok := vc.P.Ghosts[name]
+	if !ok {
+		return "", false
+	}
+	comp := "GH:" + name
+	if _, done := vc.compSort[comp]; !done {
+		if strings.Contains(st, "Bytes") {
+			vc.needBytes = true
+		}
+		vc.compSort[comp] = parseSortText(st)
+	}
+	return comp, true
+}
+
+// bytesOf: the abstract content value of a byte slice (uninterpreted function of backing array, offset, length).
+func (vc *VC) bytesOf(arr, off, ln Term) Term {
+	vc.needBytes = true
+	return mk(fmt.Sprintf("(bytes-of %s %s %s)", arr.S, off.S, ln.S), &Sort{K: SOpaque, Name: "Bytes"})
 }
